@@ -64,3 +64,12 @@ Print Assumptions C03_is_max.
 Print Assumptions C03_order_independent.
 Print Assumptions C03_isolated.
 Print Assumptions C03_total_order.
+
+(* "spellings of one version" made concrete: by the round trip Display after from_str (ParseShow.parse_show) two texts
+   that the lenient parser reads as the same version are the same text once the operator prefix is stripped and
+   omitted components are padded - '1.2.3', 'v1.2.3', '=1.2.3'; '1.2', '1.2.0' - and nothing else *)
+From VL Require Import Proofs.ParseShow Proofs.OfferedText.
+Theorem C03_spelling_class_is_textual :
+  forall x y p, parse_version x = Some p -> parse_version y = Some p -> pad (strip_ops x) = pad (strip_ops y).
+Proof. intros x y p Hx Hy. now rewrite <- (parse_version_show x p Hx), <- (parse_version_show y p Hy). Qed.
+Print Assumptions C03_spelling_class_is_textual.
